@@ -13,6 +13,7 @@ mod comps;
 mod conc;
 mod dispatch;
 mod saveload;
+mod joins;
 mod world_exec;
 
 use std::io::{BufRead, Write};
